@@ -77,6 +77,10 @@ def select__pi_kind_test(self: XPathFunction, context: ta.ContextType = None) \
 def nud__pi_kind_test(self: XPathFunction) -> XPathFunction:
     self.parser.advance('(')
     if self.parser.next_token.symbol != ')':
+        if self.parser.next_token.symbol not in ('(name)', '(string)') \
+                and self.parser.name_pattern.match(self.parser.next_token.symbol) is not None:
+            # an NCName target that is also a keyword, an operator or a function name
+            self.parser.next_token = self.parser.next_token.as_name()
         self.parser.next_token.expected('(name)', '(string)')
         self[0:] = self.parser.expression(5),
     self.parser.advance(')')
